@@ -20,7 +20,7 @@
 //! checksum bytes could be a valid bincode discriminant.
 
 use std::fs::{File, OpenOptions};
-use std::io::{self, BufReader, BufWriter, Read, Write};
+use std::io::{self, BufReader, BufWriter, Read, Seek, Write};
 use std::path::{Path, PathBuf};
 
 use serde::{Deserialize, Serialize};
@@ -247,6 +247,7 @@ impl RaftWal<FileWriter> {
         }
 
         let file = File::open(path)?;
+        let file_len = file.metadata()?.len();
         let mut reader = BufReader::new(file);
         let mut count = 0;
         let mut valid_len = 0u64;
@@ -276,6 +277,11 @@ impl RaftWal<FileWriter> {
 
             if is_v2 {
                 // V2: skip the remaining payload bytes
+                // A length prefix pointing past the end of the file is a torn tail: do not
+                // allocate for it.
+                if len as u64 > file_len.saturating_sub(reader.stream_position()?) {
+                    break;
+                }
                 let mut data = vec![0u8; len];
                 match reader.read_exact(&mut data) {
                     Ok(()) => {
@@ -288,6 +294,11 @@ impl RaftWal<FileWriter> {
             } else {
                 // V1: we already read 4 bytes of payload, read the rest
                 if len > 4 {
+                    // A length prefix pointing past the end of the file is a torn tail: do not
+                    // allocate for it.
+                    if (len - 4) as u64 > file_len.saturating_sub(reader.stream_position()?) {
+                        break;
+                    }
                     let mut remaining = vec![0u8; len - 4];
                     match reader.read_exact(&mut remaining) {
                         Ok(()) => {
@@ -538,6 +549,7 @@ impl<W: WalWriter> RaftWal<W> {
     /// Returns an error if reading fails or a checksum mismatch is detected.
     pub fn replay_with_validation(&self, verify_checksums: bool) -> io::Result<Vec<RaftWalEntry>> {
         let file = File::open(&self.path)?;
+        let file_len = file.metadata()?.len();
         let mut reader = BufReader::new(file);
         let mut entries = Vec::new();
         let mut entry_index = 0u64;
@@ -568,6 +580,11 @@ impl<W: WalWriter> RaftWal<W> {
 
             let data = if is_v2 {
                 // V2: checksum_buf contains CRC32, read payload separately
+                // A length prefix pointing past the end of the file is a torn tail: do not
+                // allocate for it.
+                if len as u64 > file_len.saturating_sub(reader.stream_position()?) {
+                    break;
+                }
                 let mut data = vec![0u8; len];
                 match reader.read_exact(&mut data) {
                     Ok(()) => {},
@@ -592,6 +609,12 @@ impl<W: WalWriter> RaftWal<W> {
                 data
             } else {
                 // V1: checksum_buf is actually the start of payload
+                // A length prefix pointing past the end of the file is a torn tail: do not
+                // allocate for it.
+                if len.saturating_sub(4) as u64 > file_len.saturating_sub(reader.stream_position()?)
+                {
+                    break;
+                }
                 let mut data = Vec::with_capacity(len);
                 data.extend_from_slice(&checksum_buf);
 
